@@ -2407,6 +2407,23 @@ pub mod verif_hooks {
 		}
 	}
 
+	/// merges package b into package a (real `merge_package`); returns
+	/// `(merged, counterparty_spendable_height, feerate_previous, height_timer, number of inputs)` of a
+	pub fn merge_probe(
+		a_inputs: &[InputSpec], a: (u32, u64, u32), b_inputs: &[InputSpec], b: (u32, u64, u32),
+		cur_height: u32,
+	) -> (bool, u32, u64, u32, usize) {
+		let mut pa = template(a_inputs, a.0, a.1);
+		pa.height_timer = a.2;
+		let mut pb = template(b_inputs, b.0, b.1);
+		pb.height_timer = b.2;
+		for (i, (op, _)) in pb.inputs.iter_mut().enumerate() {
+			op.vout = 100 + i as u32;
+		}
+		let ok = pa.merge_package(pb, cur_height).is_ok();
+		(ok, pa.counterparty_spendable_height, pa.feerate_previous, pa.height_timer, pa.inputs.len())
+	}
+
 	pub fn get_height_timer(
 		inputs: &[InputSpec], counterparty_spendable_height: u32, current_height: u32,
 	) -> u32 {
